@@ -354,6 +354,25 @@ func init() {
 						}
 					})
 				}
+				if fi == 0 {
+					// consecutive queries whose insertions have the same total length at different sites, one worker
+					r := c02RefA
+					eq := []SamRec{
+						{Name: "qa", Pos: 1, Cigar: parseCigar(fmt.Sprintf("2M2I%dM", len(r)-2)), Seq: r[:2] + "GG" + r[2:]},
+						{Name: "qb", Pos: 1, Cigar: parseCigar(fmt.Sprintf("5M2I%dM", len(r)-5)), Seq: r[:5] + "GG" + r[5:]},
+						{Name: "qc", Pos: 1, Cigar: parseCigar(fmt.Sprintf("%dM", len(r))), Seq: r},
+						{Name: "qd", Pos: 1, Cigar: parseCigar(fmt.Sprintf("1M2I%dM", len(r)-1)), Seq: r[:1] + "TT" + r[1:]},
+					}
+					for _, th := range []int{1, 2} {
+						base := Call{Cmd: "topa", Sam: samText(len(r), eq), Ref: fastaOf("ref", r), Threads: th}
+						windows(len(r), func(s, e int) {
+							o := base
+							o.Start, o.End = s, e
+							c15Check(c15Case{Relation: "topa-window", Base: base, Opt: o}, res)
+							res.States++
+						})
+					}
+				}
 				if fi == 3 {
 					base := Call{Cmd: "toma", Sam: samText(c01L, tfiles[fi])}
 					o := base
